@@ -625,6 +625,17 @@ def derived_relations(system: Any, msgs: Sequence[Tuple[str, str]] = ()) -> List
                 bad.append(f"FunctionInClassIsMethod:{o.fullName()}:{o.kind}")
         if isinstance(o, (model.Function, model.Attribute)) and o.contents:
             bad.append(f"LeavesHaveNoChildren:{o.fullName()}")
+    # the kind of an object fits what it is (a module is not a variable, a class is not a function ...)
+    K = model.DocumentableKind
+    kinds_of = [(model.Package, {K.PACKAGE}), (model.Module, {K.MODULE, K.PACKAGE}), (model.Class, {K.CLASS, K.EXCEPTION, K.INTERFACE}),
+                (model.Function, {K.FUNCTION, K.METHOD, K.CLASS_METHOD, K.STATIC_METHOD}),
+                (model.Attribute, {K.VARIABLE, K.CLASS_VARIABLE, K.INSTANCE_VARIABLE, K.CONSTANT, K.PROPERTY, K.ATTRIBUTE, K.SCHEMA_FIELD, K.TYPE_ALIAS, K.TYPE_VARIABLE, None})]
+    for k, o in system.allobjects.items():
+        for typ, allowed in kinds_of:
+            if isinstance(o, typ):
+                if o.kind not in allowed:
+                    bad.append(f"KindMatchesObject:{k}:{o.kind}")
+                break
     # 'implemented by' is the inverse of 'implements' (zope.interface extension)
     for k, o in system.allobjects.items():
         for name in getattr(o, "implements_directly", []) or []:
